@@ -36,6 +36,7 @@ type normReport struct {
 	Rounds    int      `json:"rounds"`
 	NewFuncs  []string `json:"functions_outside_vocabulary,omitempty"`
 	Literals  int      `json:"literalized"`
+	Mono      []string `json:"monomorphised_calls,omitempty"`
 	LoadError string   `json:"load_error,omitempty"`
 }
 
@@ -113,6 +114,7 @@ func normalizeOverlay(dir, goarch string, overlay map[string][]byte) (map[string
 			obj  *types.Func
 		}
 		cands := map[*types.Func]*cand{}
+		generics := map[*types.Func]*cand{}
 		var newNames []string
 		for _, p := range pkgs {
 			if p.PkgPath != modPath && p.PkgPath != parserPath {
@@ -133,7 +135,14 @@ func normalizeOverlay(dir, goarch string, overlay map[string][]byte) (map[string
 						continue
 					}
 					newNames = append(newNames, key)
-					if fd.Type.TypeParams != nil || ast.IsExported(fd.Name.Name) {
+					if ast.IsExported(fd.Name.Name) {
+						continue
+					}
+					if fd.Type.TypeParams != nil {
+						// a generic helper function (not a method) is first monomorphised per call site
+						if obj, ok := p.TypesInfo.Defs[fd.Name].(*types.Func); ok && fd.Recv == nil {
+							generics[obj] = &cand{p, fd, f, obj}
+						}
 						continue
 					}
 					if obj, ok := p.TypesInfo.Defs[fd.Name].(*types.Func); ok {
@@ -144,6 +153,72 @@ func normalizeOverlay(dir, goarch string, overlay map[string][]byte) (map[string
 		}
 		sort.Strings(newNames)
 		rep.NewFuncs = newNames
+		if len(generics) > 0 {
+			// one monomorphisation per round (the copy is inlined by the following rounds)
+			did := false
+			for _, p := range pkgs {
+				if did || (p.PkgPath != modPath && p.PkgPath != parserPath) {
+					continue
+				}
+				for _, f := range p.Syntax {
+					fname := p.Fset.Position(f.Pos()).Filename
+					if did || strings.HasSuffix(fname, "_test.go") {
+						continue
+					}
+					ast.Inspect(f, func(n ast.Node) bool {
+						call, ok := n.(*ast.CallExpr)
+						if !ok || did {
+							return !did
+						}
+						var id *ast.Ident
+						switch fun := call.Fun.(type) {
+						case *ast.Ident:
+							id = fun
+						case *ast.IndexExpr:
+							id, _ = fun.X.(*ast.Ident)
+						case *ast.IndexListExpr:
+							id, _ = fun.X.(*ast.Ident)
+						}
+						if id == nil {
+							return true
+						}
+						obj, _ := p.TypesInfo.Uses[id].(*types.Func)
+						g := generics[obj]
+						if g == nil || g.pkg != p {
+							return true
+						}
+						if g.decl.Pos() <= call.Pos() && call.End() <= g.decl.End() {
+							return true
+						}
+						site := fmt.Sprintf("%s:%d:%s", fname, p.Fset.Position(call.Pos()).Offset, obj.Name())
+						if failed[site] {
+							return true
+						}
+						inst, ok := p.TypesInfo.Instances[id]
+						if !ok {
+							failed[site] = true
+							return true
+						}
+						nc, err := monomorphise(p, cur, g.decl, f, call, inst.TypeArgs, fmt.Sprintf("%s__inst%d", obj.Name(), len(rep.Mono)+1))
+						if err != nil {
+							failed[site] = true
+							rep.Skipped = append(rep.Skipped, fmt.Sprintf("monomorphise %s at %s: %v", obj.Name(), shortPos(dir, p.Fset, call.Pos()), err))
+							return true
+						}
+						for k, v := range nc {
+							cur[k] = v
+						}
+						rep.Mono = append(rep.Mono, fmt.Sprintf("%s at %s", obj.Name(), shortPos(dir, p.Fset, call.Pos())))
+						did = true
+						changed = true
+						return false
+					})
+				}
+			}
+			if did {
+				continue
+			}
+		}
 		if len(cands) == 0 {
 			break
 		}
@@ -322,6 +397,119 @@ func normalizeOverlay(dir, goarch string, overlay map[string][]byte) (map[string
 		}
 	}
 	return cur, rep
+}
+
+// monomorphise writes a copy of the generic function decl with its type parameters replaced by
+// the type arguments of one call, and redirects that call to the copy.
+func monomorphise(p *packages.Package, cur map[string][]byte, decl *ast.FuncDecl, callFile *ast.File, call *ast.CallExpr, targs *types.TypeList, newName string) (map[string][]byte, error) {
+	declFile := p.Fset.Position(decl.Pos()).Filename
+	callFname := p.Fset.Position(callFile.Pos()).Filename
+	declContent, err := readMaybeOverlay(declFile, cur)
+	if err != nil {
+		return nil, err
+	}
+	tparams := map[types.Object]string{}
+	qual := func(other *types.Package) string {
+		if other == p.Types {
+			return ""
+		}
+		return other.Name()
+	}
+	i := 0
+	for _, fld := range decl.Type.TypeParams.List {
+		for _, nm := range fld.Names {
+			if i >= targs.Len() {
+				return nil, fmt.Errorf("type argument count")
+			}
+			ta := targs.At(i)
+			bad := false
+			// the argument must be expressible in the callee's file: no type parameters, only same-package or
+			// already imported packages (conservatively: same package or universe)
+			var walk func(t types.Type)
+			seen := map[types.Type]bool{}
+			walk = func(t types.Type) {
+				if seen[t] {
+					return
+				}
+				seen[t] = true
+				switch x := t.(type) {
+				case *types.TypeParam:
+					bad = true
+				case *types.Named:
+					if x.Obj().Pkg() != nil && x.Obj().Pkg() != p.Types {
+						bad = true
+					}
+					for j := 0; j < x.TypeArgs().Len(); j++ {
+						walk(x.TypeArgs().At(j))
+					}
+				case *types.Pointer:
+					walk(x.Elem())
+				case *types.Slice:
+					walk(x.Elem())
+				case *types.Array:
+					walk(x.Elem())
+				case *types.Map:
+					walk(x.Key())
+					walk(x.Elem())
+				case *types.Chan:
+					walk(x.Elem())
+				case *types.Basic:
+				default:
+					bad = true
+				}
+			}
+			walk(ta)
+			if bad {
+				return nil, fmt.Errorf("type argument %s cannot be written in the callee's file", ta)
+			}
+			tparams[p.TypesInfo.Defs[nm]] = types.TypeString(ta, qual)
+			i++
+		}
+	}
+	type edit struct {
+		a, b int
+		s    string
+	}
+	off := func(pos token.Pos) int { return p.Fset.Position(pos).Offset }
+	var edits []edit
+	edits = append(edits, edit{off(decl.Name.Pos()), off(decl.Name.End()), newName})
+	edits = append(edits, edit{off(decl.Type.TypeParams.Pos()), off(decl.Type.TypeParams.End()), ""})
+	ast.Inspect(decl, func(n ast.Node) bool {
+		if n == ast.Node(decl.Type.TypeParams) {
+			return false
+		}
+		if id, ok := n.(*ast.Ident); ok {
+			if s, ok := tparams[p.TypesInfo.Uses[id]]; ok {
+				edits = append(edits, edit{off(id.Pos()), off(id.End()), s})
+			}
+		}
+		return true
+	})
+	start, end := off(decl.Pos()), off(decl.End())
+	sort.Slice(edits, func(i, j int) bool { return edits[i].a > edits[j].a })
+	cp := append([]byte(nil), declContent[start:end]...)
+	for _, e := range edits {
+		cp = append(cp[:e.a-start], append([]byte(e.s), cp[e.b-start:]...)...)
+	}
+	out := map[string][]byte{}
+	// redirect the call first (offsets of the call file are still valid), then append the copy
+	callContent, err := readMaybeOverlay(callFname, cur)
+	if err != nil {
+		return nil, err
+	}
+	nb := append([]byte(nil), callContent[:off(call.Fun.Pos())]...)
+	nb = append(nb, newName...)
+	nb = append(nb, callContent[off(call.Fun.End()):]...)
+	out[callFname] = nb
+	base := out[declFile]
+	if base == nil {
+		base = append([]byte(nil), declContent...)
+	}
+	base = append(base, "\n\n"...)
+	base = append(base, cp...)
+	base = append(base, '\n')
+	out[declFile] = base
+	return out, nil
 }
 
 func methodNameInInterfaces(pkg *types.Package, name string) bool {
